@@ -8,5 +8,12 @@ func main() {
 		xlate.Spec{Pkg: "pattern", Name: "findSubstring"},
 		xlate.Spec{Pkg: "pattern", Recv: "substring", Name: "calcPrefFunc"},
 		xlate.Spec{Pkg: "pattern", Name: "findSequence"},
+		// the value tests of the searchers and their narrowing to a TID interval (the token dictionary is an interface)
+		xlate.Spec{Pkg: "pattern", Name: "cut", Oracles: []string{"tokenProvider.GetToken"}},
+		xlate.Spec{Pkg: "pattern", Recv: "literalSearch", Name: "check"},
+		xlate.Spec{Pkg: "pattern", Recv: "wildcardSearch", Name: "checkPrefix"},
+		xlate.Spec{Pkg: "pattern", Recv: "wildcardSearch", Name: "checkSuffix"},
+		xlate.Spec{Pkg: "pattern", Recv: "literalSearch", Name: "Narrow"},
+		xlate.Spec{Pkg: "pattern", Recv: "wildcardSearch", Name: "Narrow"},
 	)
 }
